@@ -79,6 +79,12 @@ class Acc:
             v["witnesses"].append({"what": what, **witness})
 
     def inconclusive_because(self, reason: str):
+        if "loop-step-stalled" in reason:
+            # not a harness problem: inside a simulated session one event-loop iteration of the code under test did not
+            # return for vf.vloop.STALL_SECONDS of wall clock and had to be interrupted - the loop was monopolised
+            self.violation("event-loop-monopolised", "one event-loop iteration of a client session did not finish within the stall limit (20 s wall clock): "
+                           "the code running in it never yields; " + reason, {"session": reason})
+            return
         if reason not in self.inconclusive:
             self.inconclusive.append(reason)
 
@@ -177,6 +183,10 @@ def _child(mod, spec, out_path, timeout, idx=0):
         try:
             mod.run_shard(spec, acc)
         except BaseException as e:  # harness failure, not a property verdict
+            if type(e).__name__ == "TooManyStalls":
+                acc.note(f"shard {spec.get('name', spec)} stopped after five stalled sessions (reported as event-loop-monopolised)")
+                acc.dump(out_path)
+                os._exit(0)
             acc.inconclusive_because(f"shard {spec.get('name', spec)} crashed: {type(e).__name__}: {e}")
             acc.note(traceback.format_exc()[-1500:])
         acc.dump(out_path)
